@@ -416,7 +416,11 @@ def op_mod(g):
         b = g.const(np.array(g.rng.choice([2.0, 3.0, -3.0, 0.5]), dtype=dt))
         return g.add("Mod", [a, b], fmod=1, mag=a.mag)
     b = g.const(np.array(g.rng.choice([2, 3, -3, 5] if dt.kind == "i" else [2, 3, 5]), dtype=dt))
-    return g.add("Mod", [a, b], mag=a.mag + 5, **({"fmod": g.rng.choice([0, 1])} if g.rng.random() < 0.6 else {}))
+    kw = {"fmod": g.rng.choice([0, 1])} if g.rng.random() < 0.6 else {}
+    if kw.get("fmod") == 1 and dt.itemsize == 8 and not a.mag < 2 ** 52:
+        # ORT computes integer fmod through double: Mod[fmod=1](int64 max, 3) = 2 there, 1 exactly (numpy, onnx.reference)
+        kw["fmod"] = 0
+    return g.add("Mod", [a, b], mag=a.mag + 5, **kw)
 
 
 def op_pow(g):
